@@ -194,6 +194,8 @@ func mergeASAACLs(ab *cmdsPair, name, prefix string) {
 				break
 			}
 		}
+		// Add at beginning if ACL has no permit line.
+		i = max(i, 0)
 		acl = append(acl[:i], append(appendACL, acl[i:]...)...)
 	}
 	// Store changed ACL.
@@ -229,6 +231,8 @@ func mergeIOSACLs(ab *cmdsPair, name, prefix string) {
 				break
 			}
 		}
+		// Add at beginning if ACL has no permit line.
+		i = max(i, 0)
 		acl = append(acl[:i], append(appendACL, acl[i:]...)...)
 	}
 	// Store changed ACL.
